@@ -184,6 +184,10 @@ func TestGovcHarness_LoadSources(t *testing.T) {
 	fg := write("x/foobar/g.go", "package foobar\n\ntype G int\n")
 	bad := write("x/bad/bad.go", "package bad\n\nvar X int = \"s\"\n")
 	txt := write("x/ab/readme.txt", "hello\n")
+	// a well-typed package importing (transitively) an ill-typed one that is not listed itself
+	write("x/broken/leaf/leaf.go", "package leaf\n\nvar X int = \"s\"\n")
+	write("x/broken/mid/mid.go", "package mid\n\nimport _ \"example.com/m/x/broken/leaf\"\n\ntype M int\n")
+	imp := write("x/broken/top/top.go", "package top\n\nimport _ \"example.com/m/x/broken/mid\"\n\ntype T int\n")
 	os.Setenv("GOFLAGS", "-mod=mod")
 	os.Setenv("GOPROXY", "off")
 	cases := 0
@@ -193,7 +197,12 @@ func TestGovcHarness_LoadSources(t *testing.T) {
 		fmt.Printf("GOVC-FAIL %s\n", b)
 		t.Fatalf(format, a...)
 	}
-	good := [][]string{{fa}, {fa, fb}, {fb, fa}, {ff, fg}, {fg, ff}, {fa, fn}, {fn, fa}, {fa, fa2}, {fa, fa}, {fa, fb, fn, ff, fg}}
+	// non-clean absolute spellings of existing files
+	unclean1 := filepath.Dir(fa) + "//a.go"
+	unclean2 := filepath.Dir(fa) + "/./a.go"
+	unclean3 := filepath.Dir(fa) + "/sub/../a.go"
+	good := [][]string{{fa}, {fa, fb}, {fb, fa}, {ff, fg}, {fg, ff}, {fa, fn}, {fn, fa}, {fa, fa2}, {fa, fa}, {fa, fb, fn, ff, fg},
+		{unclean1}, {unclean2, fb}, {fb, unclean3}}
 	for _, in := range good {
 		cases++
 		var (
@@ -216,6 +225,7 @@ func TestGovcHarness_LoadSources(t *testing.T) {
 			fail(in, "LoadSources(%v): %d packages for %d files", in, len(pkgs), len(in))
 		}
 		for i, f := range in {
+			f = filepath.Clean(f)
 			found := false
 			if pkgs[i] != nil {
 				for _, g := range pkgs[i].GoFiles {
@@ -236,7 +246,7 @@ func TestGovcHarness_LoadSources(t *testing.T) {
 		}
 	}
 	// error cases: reported, not crashed
-	bads := [][]string{{filepath.Join(root, "x/ab/missing.go")}, {fa, filepath.Join(root, "nope/n.go")}, {bad}, {fa, bad}, {txt}}
+	bads := [][]string{{filepath.Join(root, "x/ab/missing.go")}, {fa, filepath.Join(root, "nope/n.go")}, {bad}, {fa, bad}, {txt}, {imp}, {fa, imp}}
 	for _, in := range bads {
 		cases++
 		func() {
